@@ -21,6 +21,7 @@ import (
 	"github.com/thanos-io/thanos/pkg/compact"
 	"github.com/thanos-io/thanos/pkg/compact/downsample"
 	"github.com/thanos-io/thanos/pkg/logutil"
+	"github.com/thanos-io/thanos/pkg/store"
 
 	"verif/harness/fixtures"
 	"verif/harness/simbucket"
@@ -228,6 +229,7 @@ type gatewayView struct {
 	fetcher *block.MetaFetcher
 	view    map[ulid.ULID]*metadata.Meta
 	syncs   int
+	real    *store.BucketStore
 }
 
 func newGatewayView(name string, h *simbucket.Handle, dir string, ignoreDeletionMarksDelay, consistencyDelay time.Duration, conc int, defs cmdDefaults) (*gatewayView, error) {
@@ -254,9 +256,49 @@ func newGatewayView(name string, h *simbucket.Handle, dir string, ignoreDeletion
 	return &gatewayView{name: name, h: h, fetcher: f, view: map[ulid.ULID]*metadata.Meta{}}, nil
 }
 
+// realStore, when set, makes this gateway a real store.BucketStore (index headers are loaded from the
+// bucket, SyncBlocks is the real one) and view is refreshed from its loaded block set.
+func (g *gatewayView) useRealStore(dir string, defs cmdDefaults) error {
+	st, err := store.NewBucketStore(g.h, g.fetcher, dir,
+		store.NewChunksLimiterFactory(0), store.NewSeriesLimiterFactory(0), store.NewBytesLimiterFactory(0),
+		store.NewGapBasedPartitioner(store.PartitionerMaxGapSize), 32, 32, false, false, 0,
+		store.WithLogger(log.NewNopLogger()))
+	if err != nil {
+		return err
+	}
+	g.real = st
+	return nil
+}
+
+// refresh copies the real store's loaded block set into view (no-op for the hand-written view).
+func (g *gatewayView) refresh() {
+	if g.real == nil {
+		return
+	}
+	cur := map[ulid.ULID]*metadata.Meta{}
+	for _, id := range g.real.VerifLoadedBlockIDs() {
+		cur[id] = g.view[id] // meta may be nil: contents are read from the bucket
+	}
+	g.view = cur
+}
+
+func (g *gatewayView) close() {
+	if g.real != nil {
+		_ = g.real.Close()
+	}
+}
+
 // sync mirrors BucketStore.SyncBlocks: a complete view replaces the served set; an incomplete view
 // only adds blocks; a failed fetch changes nothing.
 func (g *gatewayView) sync(ctx context.Context) error {
+	if g.real != nil {
+		err := g.real.SyncBlocks(ctx)
+		g.refresh()
+		if err == nil {
+			g.syncs++
+		}
+		return err
+	}
 	metas, _, err := g.fetcher.Fetch(ctx)
 	if err != nil && metas == nil {
 		return err
